@@ -4,7 +4,7 @@
 
     create                                                  → ok
     put    ts=<int> uri= kind= track= tags=<a,b> labels= role=<d|c|i> ct=<tok> len=<n> plen=<n>
-           emb=<dim:tok|-> chunks=<ct:len:dim:tok;…|-> ii=<0|1> st=<0|1> q=<0|1> nc=<n>
+           emb=<dim:tok|-> chunks=<ct:len:dim:tok;…|-> cdims=<d,d> z=<0|1> ii=<0|1> st=<0|1> q=<0|1> nc=<n>
            ac=<0|1> ft=<n> ws=<n>                           → ok <seq> | err <reason>
     update id=<n> [ts= uri= kind= track= tags= labels=] role= pl=<0|1> [ct= len= plen= chunks=] emb=
            ii= st= q= nc= ac= ft= ws=                       → ok <seq> | err <reason>
@@ -101,7 +101,9 @@ def drvStep (m : Mem) (ws : List String) : Mem × String :=
   | [] => (m, "bad-op")
   | op :: rest =>
     let kv := kvs rest
-    let fin (r : Mem × Out) : Mem × String := (r.1, showOut r.2)
+    -- every request may carry `ws=`: the WAL region size after the call (growth can happen inside any
+    -- call that appends to the WAL, including the Lex record of a commit)
+    let fin (r : Mem × Out) : Mem × String := (r.1.setWalSize (getN kv "ws" r.1.walSize), showOut r.2)
     match op with
     | "create" => fin (step m .create)
     | "put" =>
@@ -113,7 +115,8 @@ def drvStep (m : Mem) (ws : List String) : Mem × String :=
             tags := getL kv "tags", labels := getL kv "labels", role := getRole kv,
             content := (getS kv "ct").getD "E", len := getN kv "len", plen := getN kv "plen",
             emb := getEmb kv "emb", chunks := getChunks kv "chunks", ii := getB kv "ii",
-            st := getB kv "st" true, q := getB kv "q", nc := getN kv "nc" }
+            st := getB kv "st" true, q := getB kv "q", nc := getN kv "nc", zstd := getB kv "z",
+            cdims := (getL kv "cdims").filterMap (·.toNat?) }
         fin (step m (.put a (getTrace m kv)))
     | "update" =>
       let pl : Option (String × Nat × Nat × List ChunkArg) :=
@@ -123,7 +126,7 @@ def drvStep (m : Mem) (ws : List String) : Mem × String :=
         { ts := getI kv "ts", uri := getS kv "uri", kind := getS kv "kind", track := getS kv "track",
           tags := getL kv "tags", labels := getL kv "labels", role := getRole kv, payload := pl,
           emb := getEmb kv "emb", ii := getB kv "ii", st := getB kv "st" true, q := getB kv "q",
-          nc := getN kv "nc" }
+          nc := getN kv "nc", zstd := getB kv "z" }
       fin (step m (.update (getN kv "id") u (getTrace m kv)))
     | "delete" => fin (step m (.delete (getN kv "id") (getTrace m kv)))
     | "commit" => fin (step m (.commit (getN kv "ft")))
